@@ -386,7 +386,7 @@ class TrackWorld(World):
                 "base": self._uval(), "twice": r.random() < 0.2}
 
     def _g_add_af(self, r, m):
-        return self._callable_fault(r, {"name": self._pick_name(r, m), "func": r.choice(["affine", "next_x", "lazy_speed"]),
+        return self._callable_fault(r, {"name": self._pick_name(r, m), "func": r.choice(["affine", "next_x", "lazy_speed", "running"]),
                                         "base": self._uval(), "byname": r.random() < 0.3})
 
     def _g_setobs(self, r, m):
@@ -426,7 +426,7 @@ class TrackWorld(World):
         return st
 
     def _g_apply(self, r, m):
-        return self._callable_fault(r, {"in1": self._pick_input(r, m), "f": r.choice(["half", "plus7", "neg"]),
+        return self._callable_fault(r, {"in1": self._pick_input(r, m), "f": r.choice(["half", "plus7", "neg", "fillgap"]),
                                         "out": self._pick_name(r, m)})
 
     def _g_aggregate(self, r, m):
@@ -531,7 +531,7 @@ class TrackWorld(World):
     def _g_rejected(self, r, m):
         return {"kind": r.choice(["update_unknown", "remove_unknown", "create_reserved", "read_unknown",
                                   "setobs_unknown", "delete_unknown", "expr_unknown", "expr_unknown",
-                                  "expr_unknown_function", "expr_unknown_function", "create_on_empty"]),
+                                  "expr_unknown_function", "expr_unknown_function", "create_on_empty", "resample_zero"]),
                 "a": self._pick_input(r, m), "b": self._pick_input(r, m), "out": self._pick_name(r, m),
                 "name": self._pick_name(r, m, False), "reserved": r.choice(RESERVED)}
 
@@ -1054,6 +1054,18 @@ class TrackWorld(World):
                     track.estimate_speed()
                 return base + i
             return f, [base + i for i in range(len(m["obs"]))]
+        if st["func"] == "running":
+            # a running total: the algorithm reads the value it stored for the previous fix
+            name = st["name"]
+            b = base % 13
+
+            def f(track, i):
+                return (track.getObsAnalyticalFeature(name, i - 1) if i > 0 else 0.0) + b + i
+            exp, tot = [], 0.0
+            for i in range(len(m["obs"])):
+                tot = tot + b + i
+                exp.append(tot)
+            return f, exp
         if st["func"] == "affine":
             return (lambda track, i: base + i), [base + i for i in range(len(m["obs"]))]
         # IndexError on the last observation: the documented NaN path of addAnalyticalFeature
@@ -1315,8 +1327,14 @@ class TrackWorld(World):
         t, m = self._sess(st)
         if len(m["obs"]) == 0 or not self._input_ok(m, st["in1"]) or st["out"] in RESERVED:
             raise Skip()
-        f = {"half": lambda v: v * 0.5, "plus7": lambda v: v + 7, "neg": lambda v: -v}[st["f"]]
+        f = {"half": lambda v: v * 0.5, "plus7": lambda v: v + 7, "neg": lambda v: -v,
+             # a function that fills the gaps (NaN) the library itself produces (first value of D{a}, shifted ends)
+             "fillgap": lambda v: -1.0 if v != v else v + 1}[st["f"]]
+        if st["f"] == "fillgap" and not self._numeric(m, st["in1"]):
+            raise Skip()
         exp = [f(v) for v in self._col(m, st["in1"])]
+        if st["f"] == "fillgap" and any(v != v for v in self._col(m, st["in1"])):
+            self.probe("user_function_applied_to_a_gap")
         rv, exc = self.call(t.operate, Operator.APPLY, st["in1"], self._faulty(st, f), st["out"])
         if st.get("fault") and self._after_callable_fault(st, t, m, st["out"], exc, "operate(Operator.APPLY)"):
             return "fault"
@@ -1828,6 +1846,17 @@ class TrackWorld(World):
                 return "raised"
             self.probe("feature_refused_on_an_empty_track")
             self._check_all("C01", "refused creation on an empty track (nothing may be registered)")
+            return "rejected"
+        if kind == "resample_zero":
+            # a resampling step of 0 m is refused (division by zero) before anything is replaced
+            if len(m["obs"]) < 2 or m.get("dup_obs") or m.get("loose_rows"):
+                raise Skip()
+            _, exc = self.call(t.resample, 0, 1, 1)
+            self.stats["fault_fired:rejected_request"] += 1
+            if exc is None or not isinstance(exc, Exception):
+                raise Skip()
+            self.probe("resampling_refused")
+            self._check_all("C01", "refused resample (nothing may change)")
             return "rejected"
         if kind != "create_reserved" and (name in m["names"] or name in RESERVED):
             raise Skip()
